@@ -86,6 +86,39 @@ func (l *Loop) classify() {
 			}
 		}
 	}
+	if l.Kind == "for" {
+		// canonical index loop: for i := 0; i < len(x); i++  (same order and coverage as `range x`)
+		if len(h.Instrs) > 0 {
+			if iff, ok := h.Instrs[len(h.Instrs)-1].(*ssa.If); ok {
+				if b, ok := iff.Cond.(*ssa.BinOp); ok && b.Op == token.LSS {
+					if ph, ok := b.X.(*ssa.Phi); ok && ph.Block() == h && len(ph.Edges) == 2 {
+						var over ssa.Value
+						if c, ok := b.Y.(*ssa.Call); ok {
+							if bi, ok := c.Call.Value.(*ssa.Builtin); ok && bi.Name() == "len" {
+								over = c.Call.Args[0]
+							}
+						}
+						init0, step1 := false, false
+						for i, e := range ph.Edges {
+							if l.Blocks[h.Preds[i]] {
+								if bo, ok := e.(*ssa.BinOp); ok && bo.Op == token.ADD && bo.X == ssa.Value(ph) {
+									if k, ok := constInt(bo.Y); ok && k == 1 {
+										step1 = true
+									}
+								}
+							} else if k, ok := constInt(e); ok && k == 0 {
+								init0 = true
+							}
+						}
+						if over != nil && init0 && step1 {
+							l.Kind = "forindex"
+							l.OverVal = over
+						}
+					}
+				}
+			}
+		}
+	}
 	if l.OverVal != nil {
 		l.Over = describeValue(l.OverVal)
 	}
